@@ -25,6 +25,8 @@ PROPS = {
     "C03": dict(pkg="c03", shards=(4, 16), timeout=(600, 3600), typereg=True),
     "C09": dict(pkg="c09", shards=(2, 8), timeout=(900, 5400)),
     "C10": dict(pkg="c10", shards=(2, 8), timeout=(600, 3600)),
+    "C11": dict(pkg="c11", shards=(4, 16), timeout=(600, 3600)),
+    "C12": dict(pkg="c12", race=True, shards=(3, 8), timeout=(900, 5400)),
     "C13": dict(pkg="c13", race=True, shards=(4, 16), timeout=(600, 5400)),
     "C14": dict(pkg="c14", shards=(4, 16), timeout=(600, 3600)),
     "C15": dict(pkg="c15", shards=(4, 16), timeout=(600, 3600)),
